@@ -399,7 +399,9 @@ func main() {
 		Cases: func(r *evid.Run) []chainsim.Case {
 			cs := chainsim.StdCases(r.Seed, r.Pick(64, 1600), r.Pick(50, 100), []string{"default", "registry", "hostile", "election"})
 			// Key manager traffic (secrets and CHURP methods on a test key manager runtime).
-			return chainsim.WithExtraCases(cs, r.Seed, r.Pick(8, 200), "keymanager")
+			cs = chainsim.WithExtraCases(cs, r.Seed, r.Pick(8, 200), "keymanager")
+			// VRF beacon backend: beacon.VRFProve transactions, valid and invalid in one respect.
+			return chainsim.WithExtraCases(cs, r.Seed, r.Pick(6, 150), "vrf")
 		},
 		RunCase: runCase,
 		Floor:   10,
